@@ -368,6 +368,11 @@ class Model:
         ta, tb = a.term, b.term
         if ta is None or tb is None:
             why = a.why or b.why or 'operand unknown'
+        elif _term_size(ta) * _term_size(tb) > TERM_BUDGET or max(_term_size(ta), _term_size(tb)) > TERM_SIZE_LIMIT:
+            # exact arithmetic on normal forms this large does not finish in useful time (it does not occur on the code as it is:
+            # the largest product there is ~10^3); the value becomes unknown instead
+            why = f'exact term too large ({_term_size(ta)} x {_term_size(tb)} monomials)'
+            interp.event('term-budget', node, sizes=(_term_size(ta), _term_size(tb)))
         else:
             try:
                 term = self._term_op(op, ta, tb)
@@ -1773,6 +1778,10 @@ class Model:
             raise AnalysisError(f'builtin {name} failed at {interp.where(node)}: {ex}') from None
 
     def _isinstance(self, interp, x, t, node):
+        if t is None or type(t) in (int, float, str, bool, bytes, list, dict, set) or isinstance(t, SVar):
+            # isinstance(x, 2): Python refuses anything that is not a class (or a tuple / union of classes)
+            raise RaiseSignal('TypeError', node, interp.where(node), ('isinstance() arg 2 must be a type, a tuple of types, or a union',))
+
         def one(t):
             if isinstance(t, tuple):
                 rs = [one(s) for s in t]
@@ -1905,6 +1914,23 @@ class _Partial:
 
 _ABCS = ('Mapping', 'MutableMapping', 'Sequence', 'MutableSequence', 'Iterable', 'Iterator', 'Generator', 'Sized', 'Container', 'Collection',
          'Hashable', 'Set', 'MutableSet', 'Callable')
+
+
+TERM_BUDGET = 1_000_000
+TERM_SIZE_LIMIT = 4_000  # monomials of one normal form (largest on the code as it is: 181)
+_TERM_SIZE_SEEN = [0]
+
+
+def _term_size(t) -> int:
+    if isinstance(t, Rat):
+        n = len(t.num) + len(t.den)
+    elif isinstance(t, Vec):
+        n = sum(len(c.num) + len(c.den) for c in t.terms.values()) + 1
+    else:
+        n = 1
+    if n > _TERM_SIZE_SEEN[0]:
+        _TERM_SIZE_SEEN[0] = n
+    return n
 
 
 def items_of_none(x) -> bool:
